@@ -130,6 +130,8 @@ BEFORE = {
     'S6-C12': "as S6-C06 (same change): reported by C04.S8 / C09.P1 only; C12 re-decides the protocol lemmas now",
     'S6-C16': "no check reported it (L6 probed floats, a list and None only); array-like non-arrays (numpy scalars, sparse matrices, memoryviews) probed now",
     'S6-C17': "C17 exit 0: the rewritten _fsign tripped the H4 walk, but under the one construct of the listed known finding, which swallowed it (C13.F8 reported a false 'not analysable' violation); H4 reports one construct per threshold, F8 analyses the inlined body",
+    'S7-C04': "exit 2 in every check that calls solvePDE with a recording external solver (the patched code reached spsolve, for which those worlds had no recording hook); the recordings accept whichever solver is called now, C04.S3 reports that the external solver was not the one used",
+    'S7-C05': "no check reported it: C05.E5 (unit limiter: upwind - TVD == central) was evaluated at the generic cell only; it is now also evaluated per axis in the first / last rows along the other axes",
     'S7-C12': "C04.S2 misfired and C15 was silent: python list semantics were not modelled (`lst += [..]` rebinding instead of extending, no growth during iteration); modelled, and C04.S1 / C15.Z2 require the caller's term list to be unchanged",
     'S7-C15': "exit 2 (np.any over symbolic data); quantified predicates fork the job: effect / alias rules stay definite on the outcome that pins the data, value rules are undetermined there",
     'S-C04': "C04 silent in round 1 (caught by C09 only); C04.S8 added",
